@@ -1,14 +1,6 @@
 from pyvc.lang import *
 
 
-@external("dissect.cobaltstrike.beacon:BeaconConfig.from_bytes", props=["C20"])
-def _(cls: "any", data: "bytes", xor_keys: "any", all_xor_keys: "bool"):
-    """ASSUMED at call sites (pcap.find_staged_beacon): only the documented ValueError escapes.  Not proved - the
-    constructor is outside the verifier's reach; bounded/C08.py and bounded/C01.py exercise it on the real code."""
-    raises(ValueError)
-    returns("any")
-
-
 @lemma(props=["C02", "C08", "C01"])
 def nul_from_is(B: "bytes", q: "int", x: "int"):
     """characterisation of the next NUL: nothing but non-NUL bytes in [q, x) and x is a NUL or the end of the data"""
